@@ -381,6 +381,84 @@ def run(ctx):
                              [(h_ or {}).get('protocol') for h_ in hs]),
                           {'allowed': sorted(allowed), 'reported_first': off, 'reported_second': good},
                           key={'kind': 'retry-after-mismatch', 'allowed': sorted(allowed), 'off': off})
+    # ---- status(): the networking thread may run as soon as status() has released the write lock.  The thread is run to
+    # completion at EVERY line of status() at which the caller no longer holds the lock (harness/interleave.py); whatever
+    # the point, the caller's handlers are the ones that are called
+    import interleave
+    import threading as _th
+    conn_file = C.__file__.rstrip('c')
+    for hs_mode, hp_mode in ((1, 1), (1, 2), (2, 1), (1, 0)):       # 1 custom, 2 disabled, 0 default
+        def make(hs_mode=hs_mode, hp_mode=hp_mode):
+            calls, printed = [], []
+            depth = {'n': 0}
+            real_rlock = _th.RLock
+
+            class TrackLock:
+                def __init__(self):
+                    self._l = real_rlock()
+
+                def acquire(self, *a, **k):
+                    r = self._l.acquire(*a, **k)
+                    depth['n'] += 1 if r else 0
+                    return r
+
+                def release(self):
+                    depth['n'] -= 1
+                    self._l.release()
+                __enter__ = acquire
+
+                def __exit__(self, *a):
+                    self.release()
+            cfg = {'version': 47, 'status': ('json', json.dumps({'description': 'x'}))}
+            net = simnet.Net(lambda s_: RefServer(s_, cfg))
+            net.__enter__()
+            saved_rlock = C.RLock
+            C.RLock = TrackLock
+            try:
+                conn = C.Connection('h', 25565, handle_exception=lambda e, i: calls.append(('exc', type(e).__name__)))
+            finally:
+                C.RLock = saved_rlock
+            kw = {'handle_status': (lambda d: calls.append(('status', 'U'))) if hs_mode == 1 else False,
+                  'handle_ping': (lambda ms: calls.append(('latency', 'U'))) if hp_mode == 1 else (False if hp_mode == 2 else None)}
+            import builtins
+            real_print = builtins.print
+
+            def fa():
+                builtins.print = lambda *a, **k: printed.append(a)
+                conn.status(**kw)
+
+            def fb():
+                net.run_threads()
+
+            def judge():
+                try:
+                    net.run_threads()
+                finally:
+                    builtins.print = real_print
+                    net.__exit__(None, None, None)
+                return calls, printed
+            return fa, fb, judge, (lambda: depth['n'] == 0)
+        npts = 0
+        for k, (calls, printed) in interleave.every_point(make, lambda fn: fn.rstrip('c') == conn_file):
+            npts += 1
+            ctx.case(('status-handlers-window', hs_mode, hp_mode, k))
+            want_status = 1 if hs_mode == 1 else 0
+            want_lat = 1 if hp_mode == 1 else 0
+            got_status = len([c for c in calls if c == ('status', 'U')])
+            got_lat = len([c for c in calls if c == ('latency', 'U')])
+            printed_status = [a for a in printed if a and isinstance(a[0], dict)]
+            printed_ping = [a for a in printed if a and isinstance(a[0], str) and a[0].startswith('Ping')]
+            if got_status != want_status or got_lat != want_lat or (hs_mode != 0 and printed_status) or (hp_mode != 0 and printed_ping) \
+                    or any(c[0] == 'exc' for c in calls):
+                ctx.violation('status(handle_status=%s, handle_ping=%s) with the networking thread running to completion right after the '
+                              'caller released the write lock (interruption point #%d of status()): custom status handler called %d time(s), '
+                              'custom latency handler %d, printed by default handlers: status %d, ping %d, errors %r'
+                              % (['default', 'custom', 'disabled'][hs_mode], ['default', 'custom', 'disabled'][hp_mode], k, got_status,
+                                 got_lat, len(printed_status), len(printed_ping), [c for c in calls if c[0] == 'exc'][:1]),
+                              {'handle_status': hs_mode, 'handle_ping': hp_mode, 'point': k},
+                              key={'kind': 'status-handlers-window', 'hs': hs_mode, 'hp': hp_mode})
+                break
+        ctx.count('status-handlers-window.points', npts)
     # ------------------------------------------------------------------ plain status query
     lines, impl = [], []
     slines, simpl = [], []
